@@ -201,6 +201,9 @@ def enumerate_paths(stmts, stack, env, limit=256):
         for i, st in enumerate(stmts):
             if isinstance(st, ast.If):
                 t = src(inline(st.test, env))
+                for c in ast.walk(st.test):
+                    if isinstance(c, ast.Call):
+                        _call_event(c, env, events, st.lineno)
                 rest = stmts[i + 1:]
                 go(list(st.body) + rest, conds + ((t, True),), list(events), dict(env))
                 go(list(st.orelse) + rest, conds + ((t, False),), list(events), dict(env))
